@@ -129,7 +129,7 @@ def _bind_args(ex, node, st, params, defaults, recv=None):
     binds = {}
     i = 0
     if recv is not None and names and names[0] == "self":
-        binds["self"] = recv
+        binds["self"] = _coerce_arg(ex, st, recv, params["self"], "self", node)
         i = 1
     for a in node.args:
         if isinstance(a, ast.Starred):
@@ -353,8 +353,8 @@ def _call_contract(ex, target, node, st, recv):
         ex.oblige(st, "pre", f"{label}.{lab}@{node.lineno}", g, node, f"precondition of {target}: {src}")
     pre = st.fork()
     # 2. frame: havoc what the callee may modify
-    for key in expand_keys(c.modifies):
-        _havoc_key(ex, st, key)
+    from . import frame as _frame
+    _frame.havoc(ex, st, _frame.resolve(ex, pre, c.modifies, binds))
     # 3. result
     ret_ty = c.ret if c.ret is not None else T.NoneT
     res = T.fresh(ret_ty, "ret." + label) if ret_ty is not T.NoneT else T.NONE
@@ -497,13 +497,19 @@ def _spec_form(ex, name, node, st):
             args += T.opt_inner(ex.ev(a, st)).terms
         fn = z3.Function(name, *[a.sort() for a in args], ret.sorts()[0])
         return V(ret, [fn(*args)])
-    if name in REG.opaque and name not in ex.c.reveal:
-        # opaque ghost function: uninterpreted in (arguments, heap version)
+    if name in REG.opaque and name not in ex.c.reveal and not getattr(ex, "_tracing_reads", False):
+        # opaque ghost function: uninterpreted in (arguments, the heap arrays its definition reads)
         ret = REG.opaque[name]
+        argv = [ex.ev(a, st) for a in node.args]
+        ptypes = getattr(REG, "opaque_types", {}).get(name)
+        if ptypes:
+            argv = [T.coerce(a, t) for a, t in zip(argv, ptypes)]
+        reads = _opaque_reads(ex, name, argv, st)
         args = []
-        for a in node.args:
-            args += ex.ev(a, st).terms
-        args.append(z3.IntVal(st.epoch))
+        for a in argv:
+            args += a.terms
+        for key, (doms, rng) in reads:
+            args.append(ex.h.arr(st, key, list(doms), rng))
         fn = z3.Function("opq_" + name, *[a.sort() for a in args], ret.sorts()[0])
         return V(ret, [fn(*args)])
     if name in REG.ghost:
@@ -531,6 +537,30 @@ def _syn_integral(e):
         if k in (z3.Z3_OP_ADD, z3.Z3_OP_SUB, z3.Z3_OP_MUL, z3.Z3_OP_UMINUS):
             return all(_syn_integral(c) for c in e.children())
     return False
+
+
+_OPAQUE_READS = {}
+
+
+def _opaque_reads(ex, name, argv, st):
+    """Heap arrays read by the definition of an opaque ghost function (computed once per function by evaluating
+    its body with everything revealed and recording the arrays touched)."""
+    if name in _OPAQUE_READS:
+        return _OPAQUE_READS[name]
+    params, src = REG.ghost[name]
+    st2 = st.fork()
+    st2.env = {p: a for p, a in zip(params, argv)}
+    saved_trace, saved_flag, saved_obls = ex.h.trace, getattr(ex, "_tracing_reads", False), len(ex.obls)
+    ex.h.trace = {}
+    ex._tracing_reads = True
+    try:
+        ex.ev(ast.parse(src.strip(), mode="eval").body, st2)
+        reads = sorted(ex.h.trace.items())
+    finally:
+        ex.h.trace, ex._tracing_reads = saved_trace, saved_flag
+        del ex.obls[saved_obls:]
+    _OPAQUE_READS[name] = reads
+    return reads
 
 
 UF_RET = {"uf_isWorkingTime": T.Bool, "uf_tzoff": T.Real, "uf_sbidx": T.Int, "uf_minsum": T.Int}
